@@ -17,7 +17,12 @@ func callName(ci ssa.CallInstruction) string {
 		return cc.Method.Name()
 	}
 	if f := cc.StaticCallee(); f != nil {
-		return f.Name()
+		n := f.Name()
+		// instances of generic functions: the name without its type arguments
+		if i := strings.Index(n, "["); i > 0 {
+			n = n[:i]
+		}
+		return n
 	}
 	if b, ok := cc.Value.(*ssa.Builtin); ok {
 		return "builtin." + b.Name()
@@ -238,6 +243,13 @@ func (c *C) orderFlow(fn *ssa.Function, reset func(ssa.Instruction) bool, allEdg
 					if n := callName(ci); n != "" {
 						s["C|"+n] = true
 					}
+					// a first-party helper: what holds at every one of its returns holds after the call
+					// (helpers that report an error are summarised on their success edge instead, see edge1)
+					if cf := callee(ci); cf != nil && cf != fn && !returnsError(cf) {
+						for f := range c.helperSummary(cf, false, allEdges, vocab) {
+							s[f] = true
+						}
+					}
 				}
 			}
 		}
@@ -276,6 +288,16 @@ func (c *C) orderFlow(fn *ssa.Function, reset func(ssa.Instruction) bool, allEdg
 						s["OK|"+n] = true
 					} else {
 						s["ERR|"+n] = true
+					}
+				}
+				if isNil {
+					// the helper succeeded: everything that holds at each of its nil-error returns holds here
+					for _, call := range errSourceCalls(x) {
+						if cf := call.Call.StaticCallee(); cf != nil && cf != fn {
+							for f := range c.helperSummary(cf, true, allEdges, vocab) {
+								s[f] = true
+							}
+						}
 					}
 				}
 				return s
@@ -576,4 +598,149 @@ func (c *C) checkOrder(rule string, obs []ordOb) {
 		}
 		c.Add(rule, fnName(fn), ob.What+" ["+ob.At+" needs "+need+"]", fn.Pos(), len(bad) == 0 && matched > 0, detail)
 	}
+}
+
+
+func returnsError(fn *ssa.Function) bool {
+	r := fn.Signature.Results()
+	return r.Len() > 0 && isErrorType(r.At(r.Len()-1).Type())
+}
+
+// errSourceCalls: the static calls whose error result is the value x (through extracts, phis and result cells).
+func errSourceCalls(x ssa.Value) []*ssa.Call {
+	var out []*ssa.Call
+	seen := map[ssa.Value]bool{}
+	var walk func(v ssa.Value, d int)
+	walk = func(v ssa.Value, d int) {
+		if seen[v] || d > 5 {
+			return
+		}
+		seen[v] = true
+		switch y := v.(type) {
+		case *ssa.Call:
+			out = append(out, y)
+		case *ssa.Extract:
+			walk(y.Tuple, d+1)
+		case *ssa.Phi:
+			for _, e := range y.Edges {
+				walk(e, d+1)
+			}
+		case *ssa.UnOp:
+			al, ok := y.X.(*ssa.Alloc)
+			if !ok || y.Op != token.MUL {
+				return
+			}
+			var last ssa.Value
+			for _, in := range y.Block().Instrs {
+				if in == ssa.Instruction(y) {
+					break
+				}
+				if st, ok := in.(*ssa.Store); ok && st.Addr == ssa.Value(al) {
+					last = st.Val
+				}
+			}
+			if last != nil {
+				walk(last, d+1)
+			}
+		}
+	}
+	walk(x, 0)
+	return out
+}
+
+var summaryDepth int
+
+// helperSummary: the call/store/success facts (C|, W|, OK|, SEND) that hold on every path of a first-party helper to a
+// return (onlyNil: to a return whose error result is nil). Facts about branch conditions are not exported: their names
+// refer to the helper's own variables. Recursion and depth are bounded; an unanalysable helper exports nothing.
+func (c *C) helperSummary(fn *ssa.Function, onlyNil bool, allEdges bool, vocab []string) Set {
+	if fn == nil || fn.Blocks == nil || !(firstParty(fn) || strings.HasPrefix(fn.Pkg.Pkg.Path(), "go.etcd.io/etcd/")) || summaryDepth >= 2 {
+		return nil
+	}
+	if fn.Pkg == nil {
+		return nil
+	}
+	key := fmt.Sprintf("%s|%v|%v|%s", fn.String(), onlyNil, allEdges, strings.Join(vocab, ","))
+	if c.sumMemo == nil {
+		c.sumMemo = map[string]Set{}
+	}
+	if r, ok := c.sumMemo[key]; ok {
+		return r
+	}
+	c.sumMemo[key] = nil
+	summaryDepth++
+	defer func() { summaryDepth-- }()
+	of := c.orderFlow(fn, nil, allEdges, vocab...)
+	var inter Set
+	for _, b := range fn.Blocks {
+		if len(b.Instrs) == 0 {
+			continue
+		}
+		ret, ok := b.Instrs[len(b.Instrs)-1].(*ssa.Return)
+		if !ok {
+			continue
+		}
+		if onlyNil {
+			rr := retResults(ret)
+			if len(rr) == 0 {
+				continue
+			}
+			mayNil := false
+			for _, v := range rr[len(rr)-1] {
+				if _, isC := v.(*ssa.Const); !isC || isNilConst(v) {
+					mayNil = true
+				}
+			}
+			// `if err != nil { return ..., err }`: the block is entered on the error edge of the value it returns
+			if mayNil && len(b.Preds) == 1 && IsErrEdge(b.Preds[0], b) {
+				mayNil = false
+			}
+			if !mayNil {
+				continue
+			}
+		}
+		states, live := of.States(ret)
+		if !live {
+			continue
+		}
+		// `return f(...)`: when this return hands back nil, f succeeded
+		tail := Set{}
+		if onlyNil {
+			rr := retResults(ret)
+			if vs := rr[len(rr)-1]; len(vs) == 1 {
+				for _, n := range errSources(vs[0]) {
+					tail["OK|"+n] = true
+				}
+				for _, call := range errSourceCalls(vs[0]) {
+					if cf := call.Call.StaticCallee(); cf != nil && cf != fn {
+						for f := range c.helperSummary(cf, true, allEdges, vocab) {
+							tail[f] = true
+						}
+					}
+				}
+			}
+		}
+		for _, st := range states {
+			exp := Set{}
+			for f := range tail {
+				exp[f] = true
+			}
+			for f := range st {
+				if strings.HasPrefix(f, "C|") || strings.HasPrefix(f, "W|") || strings.HasPrefix(f, "OK|") || f == "SEND" {
+					exp[f] = true
+				}
+			}
+			if inter == nil {
+				inter = exp
+			} else {
+				for f := range inter {
+					if !exp[f] {
+						delete(inter, f)
+					}
+				}
+			}
+		}
+	}
+	c.sumMemo[key] = inter
+	return inter
 }
